@@ -375,7 +375,11 @@ func httpDo(rc *RunCtx, method, addr, pathq string, body []byte, hdr map[string]
 	if body != nil {
 		rd = bytes.NewReader(body)
 	}
-	req, err := http.NewRequest(method, "http://"+addr+pathq, rd)
+	host := addr
+	if strings.Contains(addr, "/") {
+		host = "nsqd" // a unix-domain socket: the address is a path, the request still names some host
+	}
+	req, err := http.NewRequest(method, "http://"+host+pathq, rd)
 	if err != nil {
 		out.Err = err
 		return out
